@@ -1,6 +1,6 @@
 (* Property C09: build modes and optimisation never change the meaning of a check-free program.
    Only the property theorems, each closed by [exact] and followed by Print Assumptions. *)
-From C09 Require Import Model Proofs.
+From C09 Require Import Model Proofs ProofsFuel.
 Local Open Scope Z_scope.
 
 (* ---- checked helper = unchecked helper whenever the checked one does not stop the program ---- *)
@@ -47,6 +47,14 @@ Theorem C09_is_used_is_reachability : forall g fuel s b v',
   is_used fuel g [] s = Some (b, v') -> (b = true <-> reach g s).
 Proof. exact is_used_iff. Qed.
 Print Assumptions C09_is_used_is_reachability.
+
+(* the out-of-fuel answer is unreachable: over any finite set of symbols closed under usedby, fuel equal to
+   its size suffices (so the theorems above never speak about an empty case) *)
+Theorem C09_is_used_fuel_adequate : forall g U s fuel,
+  (forall n, In n U -> forall u, In u (usedby g n) -> In u U) -> In s U -> (length U <= fuel)%nat ->
+  exists b v, is_used fuel g [] s = Some (b, v).
+Proof. exact is_used_fuel_adequate. Qed.
+Print Assumptions C09_is_used_fuel_adequate.
 
 Theorem C09_dce_sound : forall g fuel1 fuel2 f d b1 b2 v1 v2,
   In f (usedby g d) ->
